@@ -272,7 +272,7 @@ def run(R):
     ntests = [t for t in ot.cfg.nodes if t.kind == 'test' and ast.unparse(t.ast) == 'necessary']
     inst = ot.qual + ' :: suppression decision'
     probs = []
-    if len(sends) == 1 and not ntests:
+    if len(sends) == 1 and not ntests and not any(nm == 'necessary' for n_ in ot.cfg.nodes for (nm, _v) in ot.cfg.defs_of(n_)):
         R.defer('on_timer: the suppression decision is not kept in a flag named `necessary` (restructured; C18.MPT.3 cannot be read)')
     elif len(sends) != 1 or len(ntests) != 1:
         probs.append((f'{len(sends)} send(s) / {len(ntests)} tests of `necessary`', ot.f.node))
